@@ -9,7 +9,7 @@ import itertools
 import numpy as np
 import z3
 from pvc.runner import Job
-from pvc import core, shims
+from pvc import core, shims, loops
 import cuqi
 from cuqi.distribution import Distribution, JointDistribution
 
@@ -17,7 +17,9 @@ DD = 'cuqi.distribution'
 EXPLANATION = ("reduced.logd(free) == sum_i l_i(full assignment) for every dependency graph in the enumerated family (<= 4 variables, generic factors with "
                "uninterpreted log-densities), every non-empty set of fixed variables, every grouping of the fixings into calls and every order, by keyword and by position, "
                "whatever class the reduction returns; intermediates and the original stay valid; stacked view; malformed evaluations are refused.")
-ASSUMPTIONS = ["graphs larger than the enumerated family are covered only by the k-independence of the loops in JointDistribution.logd/_condition (argued, not proved)",
+ASSUMPTIONS = ["graphs larger than the enumerated family: the loops of JointDistribution.logd/_condition are cut mechanically and one iteration is proved for an arbitrary factor "
+               "(every subset of three names as its parameter names, arbitrary accumulated value / list position), so joints of any number of factors that are not reduced to a single "
+               "density evaluate to the sum of the factor terms; the reduction to Posterior / Distribution / Likelihood (loop-free counting code) is covered by the enumerated family only",
                "concrete families instantiate the generic factor: their own logpdf is verified under C04"]
 
 
@@ -164,6 +166,76 @@ def refusals(c, gname='hier3'):
         c.expect_raise(f'{label}:too_many_positionals_refused', lambda: obj.logd(*([full[n] for n in free] + [vals[names[0]]])))
 
 
+# ------------------------------------------------------------------------------------------ the two loops over the factor list, cut
+class _Factor:
+    """arbitrary factor as the joint's loops see it: a set of parameter names, an uninterpreted log-density of the values it is handed,
+    and conditioning that returns a token recording what it was conditioned on"""
+    def __init__(self, c, tag, names): self.c = c; self.tag = tag; self.names = list(names); self.logd_calls = []; self.cond_calls = []
+    def get_parameter_names(self): return list(self.names)
+    def logd(self, *a, **kw):
+        self.logd_calls.append((a, dict(kw)))
+        return self.c.uf('ell_' + self.tag + '_' + '_'.join(sorted(kw)), *[kw[k] for k in sorted(kw)]) if kw else self.c.uf('ell_' + self.tag + '_none', 0.0)
+    def __call__(self, *a, **kw):
+        self.cond_calls.append((a, dict(kw))); return ('conditioned', self.tag, tuple(sorted(kw)))
+
+
+def _real_joint():
+    from cuqi.distribution import Gaussian
+    return JointDistribution(Gaussian(np.zeros(1), 1.0, name='a'), Gaussian(np.zeros(1), 1.0, name='b'), Gaussian(np.zeros(1), 1.0, name='c'))
+
+
+NAMES3 = ('a', 'b', 'c')
+
+
+def logd_loop(c, subset):
+    """JointDistribution.logd, loop cut from the real method: one iteration for an ARBITRARY factor (parameter names = subset of the evaluation's
+    names) from an arbitrary accumulated value adds exactly that factor's log-density of ITS OWN variables; the loop runs over the factor list
+    itself; the epilogue returns the accumulated value.  Induction over the list: logd = sum of the factor terms for any number of factors."""
+    pre, cond, body, post, names, info = loops.split_loop(JointDistribution.logd, 0)
+    J = _real_joint()
+    vals = {k: c.real('v_' + k) for k in NAMES3}
+    tag, st = pre({'self': J, 'args': (), 'kwargs': dict(vals)})
+    c.holds('prologue_falls_through_when_all_variables_are_given', tag == '__next')
+    st = dict(st)
+    it = list(cond(st))
+    c.holds('loop_runs_over_every_factor_of_the_joint_once_in_order', len(it) == len(J._densities) and all(a is b for a, b in zip(it, J._densities)))
+    c.holds('accumulation_starts_at_zero', st['logd'] == 0)
+    f = _Factor(c, 'k', subset)
+    acc = c.real('accumulated')
+    st['logd'] = acc; st[info['target']] = f
+    tagb, st1 = body(st)
+    c.holds('iteration_falls_through', tagb == '__next')
+    c.holds('factor_evaluated_exactly_once_by_keyword_on_its_own_variables', len(f.logd_calls) == 1 and f.logd_calls[0][0] == () and set(f.logd_calls[0][1]) == set(subset)
+            and all(f.logd_calls[0][1][k] is vals[k] for k in subset), note=str(f.logd_calls))
+    expect = acc + (c.uf('ell_k_' + '_'.join(sorted(subset)), *[vals[k] for k in sorted(subset)]) if subset else c.uf('ell_k_none', 0.0))
+    c.eq('accumulated_value_grows_by_exactly_the_factor_term', st1['logd'], expect)
+    c.holds('evaluation_point_not_modified', st1['kwargs'] == vals and all(st1['kwargs'][k] is vals[k] for k in NAMES3))
+    tagp, ret = post(dict(st1))
+    c.holds('epilogue_returns_the_accumulated_value', tagp == '__ret' and ret is st1['logd'])
+
+
+def condition_loop(c, subset, pos):
+    """JointDistribution._condition, loop cut: entry `pos` of the COPIED factor list is replaced by that factor conditioned on exactly the
+    given values of its own variables; other entries, the original list and the given values are untouched"""
+    pre, cond, body, post, names, info = loops.split_loop(JointDistribution._condition, 0)
+    J = _real_joint()
+    facs = [_Factor(c, f'k{i}', subset if i == pos else NAMES3[:i]) for i in range(3)]
+    J._densities = list(facs); orig_list = J._densities
+    given = {k: c.real('v_' + k) for k in ('a', 'c')}            # a proper subset of the names is being fixed
+    tag, st = pre({'self': J, 'args': (), 'kwargs': dict(given)})
+    st = dict(st); nj = st['new_joint']
+    c.holds('prologue:works_on_a_copy_of_the_joint_and_of_its_factor_list', nj is not J and nj._densities is not orig_list and nj._densities == facs)
+    c.holds('loop_enumerates_the_copied_list_in_order', list(cond(st)) == list(enumerate(facs)))
+    st['i'] = pos; st['density'] = facs[pos]
+    tagb, st1 = body(st)
+    mine = {k: v for k, v in given.items() if k in subset}
+    c.holds('iteration:factor_conditioned_once_on_exactly_its_own_given_variables', len(facs[pos].cond_calls) == 1 and facs[pos].cond_calls[0][0] == ()
+            and set(facs[pos].cond_calls[0][1]) == set(mine) and all(facs[pos].cond_calls[0][1][k] is mine[k] for k in mine), note=str(facs[pos].cond_calls))
+    c.holds('iteration:entry_replaced_by_the_conditioned_factor', nj._densities[pos] == ('conditioned', f'k{pos}', tuple(sorted(mine))))
+    c.holds('iteration:other_entries_and_other_factors_untouched', all(nj._densities[j] is facs[j] and not facs[j].cond_calls for j in range(3) if j != pos))
+    c.holds('iteration:original_joint_keeps_its_factors', J._densities is orig_list and orig_list == facs)
+
+
 def jobs(tier):
     J = []
     q = tier == 'quick'
@@ -181,4 +253,12 @@ def jobs(tier):
                 J.append(Job(f'{g}:fixed={"+".join(fixed)}', lambda c, g=g, f=fixed, lim=lim: conditioning(c, g, list(f), lim), 'Pbox', FL, timeout=600))
         J.append(Job(f'{g}:stacked_view', lambda c, g=g: stacked(c, g), 'Pbox', [f'{DD}._joint_distribution:_StackedJointDistribution.logd']))
     J.append(Job('refusals:hier3', refusals, 'Pbox', FL))
+    subsets = [tuple(x for x, keep in zip(NAMES3, bits) if keep) for bits in itertools.product((0, 1), repeat=3)]
+    for sub in subsets:
+        J.append(Job(f'JointDistribution.logd:loop0:arbitrary_factor:names={"+".join(sub) or "none"}', lambda c, sub=sub: logd_loop(c, sub), 'Pbox',
+                     [f'{DD}._joint_distribution:JointDistribution.logd'], num=False))
+    for sub in (subsets if not q else [(), ('a',), ('b',), ('a', 'c'), ('a', 'b', 'c')]):
+        for pos in (0, 1, 2):
+            J.append(Job(f'JointDistribution._condition:loop0:arbitrary_factor:names={"+".join(sub) or "none"}:position={pos}', lambda c, sub=sub, pos=pos: condition_loop(c, sub, pos), 'Pbox',
+                         [f'{DD}._joint_distribution:JointDistribution._condition'], num=False))
     return J
